@@ -10,12 +10,13 @@ func codecScope(pkg string) bool {
 func init() {
 	register("C09", []string{"./backend/...", "./constraint/...", "./io/..."}, func(p *Prog, r *Report) {
 		r.Engines = []string{"codec(CODEC-SEQ,CODEC-FIELDS,CODEC-PRECOMPUTE)", "gate(GATE-CODEC)", "sibling"}
-		r.Explanation = "Static comparison of writers and readers. Decided: (CODEC-SEQ) for every type with a writer (WriteTo / WriteRawTo / writeTo / WriteDump) and a reader (ReadFrom / UnsafeReadFrom / readFrom / ReadDump) in the Groth16, PLONK, MPC-setup, witness and constraint packages, the ordered sequence of encoded items (receiver field paths, nested objects, length locals) equals the ordered sequence of decoded items, field by field; (CODEC-FIELDS) every field of the struct is written, written through a derived value, or listed as recomputed on decode; (CODEC-PRECOMPUTE) every successful return of the Groth16 verifying-key decoder passes Precompute(), unconditionally; (CODEC-CBOR) the CBOR decoder of constraint systems sets its element limits to the maximum (the encoder has none) and the encoder is the deterministic core mode; (GATE-CODEC) the calldata codecs of the sparse gates agree; sibling agreement of the generated marshal files. NOT decided: byte-level behaviour of gnark-crypto encoders and CBOR (limits, canonical form), functional equivalence of decoded systems, byte counts."
+		r.Explanation = "Static comparison of writers and readers. Decided: (CODEC-SEQ) for every type with a writer (WriteTo / WriteRawTo / writeTo / WriteDump) and a reader (ReadFrom / UnsafeReadFrom / readFrom / ReadDump) in the Groth16, PLONK, MPC-setup, witness and constraint packages, the ordered sequence of encoded items (receiver field paths, nested objects, length locals) equals the ordered sequence of decoded items, field by field; (CODEC-FIELDS) every field of the struct is written, written through a derived value, or listed as recomputed on decode; (CODEC-PRECOMPUTE) every successful return of the Groth16 verifying-key decoder passes Precompute(), unconditionally; (CODEC-CBOR) the CBOR decoder of constraint systems sets its element limits to the maximum (the encoder has none) and the encoder is the deterministic core mode; (CODEC-EXACT) no decoder wraps the io.Reader it was given in a read-ahead reader (bufio, io.ReadAll), so the bytes consumed are exactly the reported count and objects can follow one another on a stream; (GATE-CODEC) the calldata codecs of the sparse gates agree; sibling agreement of the generated marshal files. NOT decided: byte-level behaviour of gnark-crypto encoders and CBOR (limits, canonical form), functional equivalence of decoded systems, byte counts."
 		r.RuleText = "one obligation per writer/reader pair, per struct field, per decoder; nontrivial = sequences compared / field found in the encoded items"
 		r.Assumptions = []string{"gnark-crypto Encoder.Encode / Decoder.Decode are symmetric per item type"}
 		RunCodecSeq(p, r, codecScope)
 		RunCodecPrecompute(p, r)
 		RunCodecCBOR(p, r)
+		RunCodecNoReadAhead(p, r, codecScope)
 		RunGateBlueprints(p, r)
 		RunSibling(p, r, "C09")
 		r.RequireMin("CODEC-SEQ", 30)
